@@ -26,30 +26,30 @@ type e2eAttempt struct {
 	cancelInHandler int  // >=0: the handler of that call cancels the context before returning
 	cancelWhenIdle  bool // cancel once the master has sent everything and hangs
 	// pacing: the master waits for the k-th handler call to start before sending the rest (reader "waiting for the network")
-	holdAfter int // >=0: number of packets sent before waiting for gate
+	holdAfter   int // >=0: number of packets sent before waiting for gate
 	slowHandler time.Duration
-	scribble  bool
+	scribble    bool
 }
 
 type e2eResult struct {
-	returned    bool
-	streamErr   error
-	outcome     string
-	calls       []vh.Val
-	snapshots   []string // deep copies taken inside the handler
-	txs         []*gobinlog.Transaction
-	stored      gobinlog.Position
-	errorRes    string // nil | blocked | master:<msg> | transport:<text>
+	returned            bool
+	streamErr           error
+	outcome             string
+	calls               []vh.Val
+	snapshots           []string // deep copies taken inside the handler
+	txs                 []*gobinlog.Transaction
+	stored              gobinlog.Position
+	errorRes            string // nil | blocked | master:<msg> | transport:<text>
 	errorResAfterCancel string
-	leaked      bool
-	closedSeen  bool
-	quitSeen    bool
-	dumps       []dumpReq
-	queries     []string
-	order       []string
-	overlap     bool // two handler calls at once
-	afterReturn bool // a handler call after Stream returned
-	elapsed     time.Duration
+	leaked              bool
+	closedSeen          bool
+	quitSeen            bool
+	dumps               []dumpReq
+	queries             []string
+	order               []string
+	overlap             bool // two handler calls at once
+	afterReturn         bool // a handler call after Stream returned
+	elapsed             time.Duration
 }
 
 const leakFrame = "startDumpFromBinlogPosition.func1"
@@ -77,10 +77,10 @@ func classifyErr(err error) string {
 }
 
 type e2eEnv struct {
-	m       *fakeMaster
-	s       *gobinlog.Streamer
-	scripts []func(req dumpReq) []action
-	mu      sync.Mutex
+	m          *fakeMaster
+	s          *gobinlog.Streamer
+	scripts    []func(req dumpReq) []action
+	mu         sync.Mutex
 	lateCancel bool // cancel the caller's context after Stream returned, before Error()
 }
 
